@@ -157,7 +157,7 @@ theorem inv_opUnaryMut (s : State) (i delta : Nat) (h : Inv s) : Inv (opUnaryMut
   · split
     · rename_i reg hr
       split
-      · exact inv_setBytes h hr _
+      · exact inv_allocStd _ _ _ _ _ _ (inv_dropSlot _ _ h)
       · exact h
     · exact h
   · exact h
